@@ -12,7 +12,7 @@ from .common import Driver, I
 from .stubs import Obj
 
 RULE = ("land/sea masks: exhaustively all masks of a 3x4 grid (quick: ocean distance 1..2; thorough: 1..3), random masks up to "
-        "14x14 with land fractions 0.1..0.6, fjord-like channels and closed basins, ocean distances 1..4; every sea cell as start. "
+        "14x14 with land fractions 0.1..0.6, fjord-like channels and closed basins, ocean distances 1..4; random depth-first mazes and serpentines of one-cell-wide corridors up to 13x13 (+ open-sea strip) whose sea paths exceed rows+columns; every sea cell as start. "
         "Non-trivial: mask with at least one land and one sea cell.")
 ASSUMPTIONS = ["scipy generic_filter / binary_dilation are modelled by their documented semantics and checked against the real calls here"]
 SITE = "ladim_plugins/vps/gridforce.py::_compute_fish_velocity"
@@ -60,6 +60,38 @@ def gen_mask(rng):
         m[:, : c // 2] = 1
         row = rng.randrange(r)
         m[row, : c // 2] = 0
+    return m
+
+
+def gen_maze(rng, d):
+    """a winding fjord system: a random depth-first maze of one-cell-wide sea corridors in a land block with one
+    mouth, opening on a strip of open sea; the sea path from the innermost cells is much longer than rows + columns"""
+    a = rng.randrange(2, 7); b = rng.randrange(2, 7)
+    R, C = 2 * a + 1, 2 * b + 1
+    m = np.ones((R, C), dtype=int)
+    seen = {(0, 0)}; stack = [(0, 0)]; m[1, 1] = 0
+    while stack:
+        i, j = stack[-1]
+        nb = [(i + di, j + dj) for di, dj in ((1, 0), (-1, 0), (0, 1), (0, -1)) if 0 <= i + di < a and 0 <= j + dj < b and (i + di, j + dj) not in seen]
+        if not nb:
+            stack.pop(); continue
+        k = rng.choice(nb)
+        m[i + k[0] + 1, j + k[1] + 1] = 0; m[2 * k[0] + 1, 2 * k[1] + 1] = 0
+        seen.add(k); stack.append(k)
+    if rng.random() < 0.3:      # a pure serpentine instead of a branching maze
+        m[:] = 1
+        for i in range(a):
+            m[2 * i + 1, 1:C - 1] = 0
+            if i + 1 < a:
+                m[2 * i + 2, (C - 2) if i % 2 == 0 else 1] = 0
+    mouth = 2 * rng.randrange(a) + 1
+    m[mouth, C - 1] = 0
+    sea = np.zeros((R, 2 * d + rng.randrange(1, 3)), dtype=int)
+    m = np.concatenate([m, sea], axis=1)
+    if rng.random() < 0.5:
+        m = m.T.copy()
+    if rng.random() < 0.5:
+        m = m[::-1, ::-1].copy()
     return m
 
 
@@ -118,6 +150,12 @@ def run(ctx):
         d = ctx.rng.choice([1, 2, 3, 4])
         check_mask(ctx, drv, pend, V, G, land, d)
         ctx.branch("random"); ctx.size("rows", land.shape[0])
+    for c in range(ctx.n(40, 600)):
+        d = ctx.rng.choice([1, 2, 3])
+        land = gen_maze(ctx.rng, d)
+        check_mask(ctx, drv, pend, V, G, land, d)
+        ctx.branch("maze"); ctx.size("rows", land.shape[0])
+        ctx.size("max_index_over_rows_plus_cols", int(bfs_reference(land, d).max() > sum(land.shape)))
     if drv.available:
         rep = drv.run()
         UO = {0: 0, 1: -1, 2: 1, 3: 0, 4: 0}; VO = {0: 0, 1: 0, 2: 0, 3: -1, 4: 1}
